@@ -34,6 +34,7 @@ import (
 
 	sifapp "github.com/Sifchain/sifnode/app"
 	clptypes "github.com/Sifchain/sifnode/x/clp/types"
+	disptypes "github.com/Sifchain/sifnode/x/dispensation/types"
 	ethbridgetypes "github.com/Sifchain/sifnode/x/ethbridge/types"
 	margintypes "github.com/Sifchain/sifnode/x/margin/types"
 	trtypes "github.com/Sifchain/sifnode/x/tokenregistry/types"
@@ -676,6 +677,73 @@ func marginSQHistory(seed uint64, rng *Rng) *Pilot {
 	return p
 }
 
+// ---- history: size-thresholds -----------------------------------------------------------------------
+// Crosses the size thresholds of the code: one margin-enabled pool with about 130 open positions (MaxPageLimit is
+// 100) visited by the margin BeginBlocker in every block (epoch length 1), and a dispensation with 45 recipients run
+// in slices (MaxRecordsPerBlock is 20).  A restart point before every block from the third on.
+
+func sizeThresholdHistory(seed uint64, rng *Rng) *Pilot {
+	p := NewPilot("size-thresholds", seed, rng, GenesisOpts{NUsers: 8, ValPowers: []int64{10}, MarginPools: []string{"ceth"}, EpochSeconds: 3600}, 600)
+	adm := p.W.Admin
+	open := func(n int) {
+		for i := 0; i < n; i++ {
+			u := p.W.Users[p.R.Intn(len(p.W.Users)-1)]
+			m := margintypes.MsgOpen{Signer: u.Addr.String(), CollateralAsset: "rowan", CollateralAmount: uintOf(new(big.Int).Mul(big.NewInt(int64(2+p.R.Intn(8))), pow10(18))),
+				BorrowAsset: "ceth", Position: margintypes.Position_LONG, Leverage: sdk.MustNewDecFromStr("2.0")}
+			before := p.C.App.MarginKeeper.GetMTPCount(p.C.Ctx())
+			if r := p.Tx("margin.open.many", u, &m); r.Code == 0 {
+				p.mtps = append(p.mtps, mtpRef{owner: u, id: before + 1})
+			}
+		}
+	}
+	var distName string
+	var runner *Acct
+	for b := 0; b < 9; b++ {
+		p.Begin()
+		switch b {
+		case 0:
+			p.CreatePool(p.W.Users[0], "ceth")
+			params := p.C.App.MarginKeeper.GetParams(p.C.Ctx())
+			np := params
+			np.EpochLength = 1
+			np.MaxOpenPositions = 100000
+			m := margintypes.MsgUpdateParams{Signer: adm.Addr.String(), Params: &np}
+			p.Tx("margin.updateparams.epoch1", adm, &m)
+			// a dispensation with more recipients than one run may pay
+			d := p.W.Users[1]
+			runner = p.W.Users[2]
+			var outs []banktypes.Output
+			for i := 0; i < 45; i++ {
+				outs = append(outs, banktypes.NewOutput(NewAcct(p.W.Seed, fmt.Sprintf("many-%d", i)).Addr, sdk.NewCoins(coin("rowan", new(big.Int).Mul(big.NewInt(int64(1+p.R.Intn(9))), pow10(18))))))
+			}
+			cm := disptypes.NewMsgCreateDistribution(d.Addr, disptypes.DistributionType_DISTRIBUTION_TYPE_AIRDROP, outs, runner.Addr.String())
+			if r := p.Tx("disp.create.45", d, &cm); r.Code == 0 {
+				distName = fmt.Sprintf("%d_%s", p.Height(), d.Addr.String())
+				p.dists = append(p.dists, distRef{name: distName, typ: disptypes.DistributionType_DISTRIBUTION_TYPE_AIRDROP, runner: runner})
+			}
+		case 1, 2:
+			open(65)
+		default:
+			if distName != "" {
+				rm := disptypes.NewMsgRunDistribution(runner.Addr.String(), distName, disptypes.DistributionType_DISTRIBUTION_TYPE_AIRDROP, 20)
+				p.Tx("disp.run.20of45", runner, &rm)
+			}
+			if ps := p.pools(); len(ps) > 0 {
+				p.Swap(p.user(), ps, b == 5) // one price move
+			}
+			if b == 6 {
+				open(10)
+				p.MarginClose()
+			}
+		}
+		p.End()
+		if b >= 1 {
+			p.Spec.RestartBefore = append(p.Spec.RestartBefore, len(p.Spec.Blocks))
+		}
+	}
+	return p
+}
+
 // restartGasProbe attributes the extra BeginBlock gas of a restarted node: it replays the history up to the
 // first restart point on two chains, restarts one of them, and runs the two BeginBlockers that keep
 // process-local "already done" state on a context with a fresh infinite gas meter.
@@ -739,6 +807,7 @@ func init() {
 			func() (*Pilot, string) { return restartVBHistory(seed, rng), "restart-validatebasic" },
 			func() (*Pilot, string) { return poollessHistory(seed, rng), "poolless-prefix" },
 			func() (*Pilot, string) { return marginSQHistory(seed, rng), "margin-stress-queue" },
+			func() (*Pilot, string) { return sizeThresholdHistory(seed, rng), "size-thresholds" },
 			func() (*Pilot, string) { return ghostHistory(seed, rng, false), "genesis-lps-without-accounts.lppd" },
 			func() (*Pilot, string) { return ghostHistory(seed, rng, true), "genesis-lps-without-accounts.epoch" },
 		} {
